@@ -54,7 +54,7 @@ def ensure_built(need_cli=True, need_harness=True):
             env = build_env()
             env.pop("RUSTFLAGS", None)  # harness/.cargo/config.toml carries the flags
             procs.append(("harness", subprocess.Popen(
-                ["cargo", "build", "--offline", "--release"],
+                ["cargo", "build", "--offline", "--release", "--target-dir", os.path.join(TARGET, "harness")],
                 cwd=os.path.join(VERIF, "harness"), env=env,
                 stdout=subprocess.PIPE, stderr=subprocess.STDOUT)))
         for name, p in procs:
@@ -62,6 +62,9 @@ def ensure_built(need_cli=True, need_harness=True):
             if p.returncode != 0:
                 log(out[-6000:])
                 raise EngineError("build of %s failed" % name)
+        for need, path in ((need_cli, MONORAIL), (need_harness, VX), (need_harness, VHELPER)):
+            if need and not os.access(path, os.X_OK):
+                raise EngineError("expected build product %s is missing" % path)
     return time.time() - t0
 
 
